@@ -161,13 +161,16 @@ def gen_recipe(rng, name: str, want: dict | None = None) -> dict:
                 K -= 1
             filt = {"kind": "pair", "choice": "w", "choice2": choice2, "state": "l", "state2": "h", "K": K, "from_period": 1, "step": step}
         else:
-            kind = rng.choice(["lock", "lock", "lock_period"]) if n_periods > 1 else "lock"
+            kind = "lock"
+            if n_periods > 1:
+                # period-dependent admissible sets are where solver and simulation bookkeeping can drift apart
+                kind = rng.choice(["lock", "lock", "lock_period"] if n_periods == 2 else ["lock", "lock_period", "lock_period"])
             st = "h" if (hany is not None and rng.random() < 0.3) else "l"
             filt = {"kind": kind, "choice": "w", "choice2": choice2, "state": st, "from_period": rng.randint(1, max(1, n_periods - 1)), "step": step}
 
     # a second filter function; together with the first one the model then has filters with
     # mixed period dependence (one takes _period, the other does not)
-    if filt and n_periods >= 2 and rng.random() < 0.45:
+    if filt and n_periods >= 2 and rng.random() < (0.45 if n_periods == 2 else 0.6):
         filt["gate_from"] = rng.randint(1, max(1, n_periods - 1))
 
     # ---- auxiliaries, constraints, coefficients ----------------------------------------
